@@ -239,7 +239,7 @@ def run_tlc(
     res["ok"] = viol is None and p.returncode == 0
     if coverage:
         cov = {}
-        for m in re.finditer(r"<(\w+) line \d+, col \d+ to line \d+, col \d+ of module (\w+)>: (\d+):(\d+)", out):
+        for m in re.finditer(r"<(\w+) line \d+, col \d+ to line \d+, col \d+ of module (\w+)(?: \([\d ]+\))?>: (\d+):(\d+)", out):
             cov[m.group(1)] = (int(m.group(3)), int(m.group(4)))
         res["coverage"] = cov
     if p.returncode == 124:
